@@ -12,7 +12,7 @@ From Coq Require Import String.
 From Coq Require Import List ZArith NArith Bool Lia Arith.
 From Tele Require Import Lib.Bytes Lib.FS Model.Span Model.Uploader
   Proofs.FSFacts Proofs.UploaderBase Proofs.UploaderNames Proofs.UploaderFiles Proofs.UploaderData
-  Proofs.UploaderEver Proofs.UploaderSeq Proofs.UploaderIdem Proofs.UploaderNoDup.
+  Proofs.UploaderEver Proofs.UploaderSeq Proofs.UploaderIdem Proofs.UploaderNoDup Proofs.UploaderLocal.
 Import ListNotations.
 Open Scope nat_scope.
 
@@ -197,6 +197,38 @@ Proof.
   eexists _, _. repeat split.
 Qed.
 Print Assumptions C07_concurrent_whole_week_refuted.
+
+(* ---- the positive counterpart outside the refuted class: when all uploaders
+        run in mode local (nothing is uploaded, so no W.json ever disappears),
+        then for ANY number of uploaders, every interleaving and kill set, the
+        body of local.W.json - for a week with no report before - folds in
+        exactly W's count files that are expired for its author: none missed ---- *)
+Theorem C07_concurrent_whole_week_mode_local :
+  forall (f : FS) (W : bytes), fs_wf f ->
+  d_mem (f_local f) (local_name W) = false -> d_mem (f_local f) (ready_name W) = false ->
+  d_mem (up_dir f) (marker_name W) = false -> week_ok W ->
+  forall cfgs st, reach_from (init_state f cfgs) st ->
+  (forall i t, nth_error (s_ths st) i = Some t -> u_on (t_cfg t) = false) ->
+  forall id r, d_find (f_local (s_fs st)) (local_name W) = Some (id, CRep (Some r)) ->
+  r_week r = W /\ r_up r = false /\
+  exists i t, nth_error (s_ths st) i = Some t /\ t_id t = r_by r /\
+              forall n cf, In (n, cf) (r_files r) <->
+                           wfile f W n cf /\ before_start (cf_end cf) (u_start (t_cfg t)) = true.
+Proof. exact local_whole_week. Qed.
+Print Assumptions C07_concurrent_whole_week_mode_local.
+
+(* two uploaders in mode local racing through createReport: one report, both files *)
+Definition ml_cfg : ucfg := mkCfg (1705000000%Z, 0%Z) false None (s2b "/t/local/"%string).
+Example C07_ex_mode_local_race :
+  let st := run [rf_S 0; rf_S 1; rf_S 0; rf_S 1; rf_S 0; rf_S 1; rf_S 0; rf_S 1; (0, APick rf_W); (1, APick rf_W);
+                 rf_S 0; rf_S 1; rf_S 0; rf_S 1; rf_S 0; rf_S 1; rf_S 1; rf_S 0; rf_S 0; rf_S 1; rf_S 1; rf_S 0;
+                 (0, APickNone); (1, APickNone)]
+                (init_state rf_fs [ml_cfg; ml_cfg]) in
+  quiescent st = true /\
+  option_map (fun v => match snd v with CRep (Some r) => (map fst (r_files r), r_by r) | _ => ([], 9) end)
+    (d_find (f_local (s_fs st)) (local_name rf_W)) = Some ([rf_a; rf_b], 0) /\
+  map fst (f_local (s_fs st)) = [local_name rf_W].
+Proof. vm_compute. repeat split. Qed.
 
 (* ---- non-vacuity: the premises of one_report_per_week hold for a concrete
         directory, and the model computes the report ---- *)
